@@ -211,6 +211,7 @@ Record ctx_facts (c : ctx_table) : Prop := {
   f_next : ct_next_slice c = 0 /\ ct_next_set c = 0 /\ plain_var (ct_next_val c) v_ga = true;
   f_md_regs : plain_var (ct_md_regs_val c) v_mga = true;
   f_md_size : plain_var (ct_md_size c) v_size = true;
+  f_get_val : plain_var (ct_get_val c) v_ga = true /\ plain_var (ct_md_get_val c) v_mga = true;
   f_layout : forall n, In n (accepted c) -> ok_layout c n = true;
   f_disjoint : forall n, In n (accepted c) -> ok_disjoint c n = true
 }.
@@ -245,6 +246,7 @@ Proof.
   apply app_eq_nil in H. destruct H as [G4 H].
   apply app_eq_nil in H. destruct H as [G5 H].
   apply app_eq_nil in H. destruct H as [G6 H].
+  apply app_eq_nil in H. destruct H as [G9 H].
   apply app_eq_nil in H. destruct H as [G7 G8].
   constructor.
   - exact (diag_nil _ _ _ _ H1).
@@ -281,6 +283,7 @@ Proof.
     apply Z.eqb_eq in X1. apply Z.eqb_eq in X2. repeat split; assumption.
   - exact (diag_nil _ _ _ _ G5 _ (or_introl eq_refl)).
   - exact (diag_nil _ _ _ _ G6 _ (or_introl eq_refl)).
+  - pose proof (diag_nil _ _ _ _ G9 _ (or_introl eq_refl)) as X. cbv beta in X. apply andb_true_iff in X. exact X.
   - exact (diag_nil _ _ _ _ G7).
   - exact (diag_nil _ _ _ _ G8).
 Qed.
@@ -318,7 +321,12 @@ Lemma get_register_unfold : forall rf n v,
     | Ret x => Ret (Some x) | Fail => Fail | Panic t => Panic t | OutOfFuel => OutOfFuel
     end
   else Ret None.
-Proof. intros rf n v. unfold get_register. rewrite (plain_bvar_pure _ _ (f_get_cond c F)). reflexivity. Qed.
+Proof.
+  intros rf n v. unfold get_register. rewrite (plain_bvar_pure _ _ (f_get_cond c F)).
+  destruct (is_valid c n v); [|reflexivity]. destruct (get_always c rf n) as [x| |t|]; try reflexivity.
+  cbn [obind]. rewrite (plain_var_eval _ _ (proj1 (f_get_val c F)) rf _ x); [reflexivity|].
+  cbn [lookup_var]. rewrite name_eqb_refl. reflexivity.
+Qed.
 
 Lemma accepted_tables : forall n, In n (accepted c) ->
   exists a b, (exists e, find_arm n (ct_get c) = Some e /\ plain_read e = Some a) /\
@@ -587,7 +595,9 @@ Lemma md_get_register_eq : forall rf n v, md_get_register c rf n v = get_registe
 Proof.
   intros rf n v. rewrite get_register_unfold. unfold md_get_register.
   rewrite (md_is_valid_eq _ (f_md_valid c F)). cbn [obind]. rewrite md_get_always_eq.
-  destruct (is_valid c n v); [|reflexivity]. destruct (get_always c rf n); reflexivity.
+  destruct (is_valid c n v); [|reflexivity]. destruct (get_always c rf n) as [x| |t|]; try reflexivity.
+  cbn [obind]. rewrite (plain_var_eval _ _ (proj2 (f_get_val c F)) rf _ x); [reflexivity|].
+  cbn [lookup_var]. rewrite name_eqb_refl. reflexivity.
 Qed.
 Lemma md_named_eq : forall rf n, md_named c rf n = named c rf n.
 Proof.
